@@ -47,7 +47,7 @@ CASE_TIMEOUT = {"quick": 30, "thorough": 120}
 MODES = ["Zero", "Away", "Up", "Down", "HalfEven", "HalfAway"]
 BASES = [2, 2, 3, 8, 10, 10, 10, 16, 36]
 
-LEVEL_TEXT = ("Coq theorems for all inputs (every base B >= 2, every float, every digits_ub that never under-estimates): the as-is models "
+LEVEL_TEXT = ("Coq theorems for all inputs (81 pinned; every base B >= 2, every float, every digits_ub that never under-estimates): the as-is models "
               "of FBig::{trunc,floor,ceil,round,fract,split_at_point,to_int,with_precision}, Repr::to_int, split_at_point_internal / "
               "smaller_than_one return the neighbour of the exact value their definition names (spec_round under Zero/Down/Up/HalfAway/"
               "the type's mode), trunc + fract = x with |fract| < 1 and the sign of x, the Exact/NoOp/AddOne/SubOne flag is the true "
@@ -55,37 +55,70 @@ LEVEL_TEXT = ("Coq theorems for all inputs (every base B >= 2, every float, ever
               "ceil/floor/trunc/round/fract/split_at_point likewise (and the roundings depend on the value only, not on the reduction); "
               "round_fract/round_ratio equal spec_round for all six modes through the rounding tables regenerated from "
               "float/src/round.rs; the base-10 / power-of-two digit splitting of utils.rs equals truncating division by B^k. "
-              "Every implementation answer is decided against the extracted specification.")
-LEVEL_NOTE = ("Trusted: Coq kernel, translator (round_low_part bodies), extraction + FastZ.v, zarith, harness. IBig arithmetic below the "
-              "float/rational layer is Z arithmetic (C01/C02/C09); digits_ub enters only through the contract 'never under-estimates' "
-              "(C12 log2_bounds); the f32 pre-filter inside round_fract is not modelled (C03 finding #30 territory, precision*log2(B) > 16000). "
-              "Result precisions (context of the returned float) are checked for legality by the oracle only, not proved. Two defects of the "
-              "pinned tree were repaired in /repo (findings/C10.json F01 = DESIGN 5.1 #20, F02) and are refuted in Coq on the pinned model.")
-TECHNIQUE = "Coq proof (as-is models = spec_round, rounding tables regenerated from source) + extracted-spec correspondence run"
+              "Round 3: (1) the PUBLIC entry points from assert_finite on (infinities = the documented panic; with_precision reaches the "
+              "finiteness test only when it rounds; same-base conversion maps them to themselves) over ANY implementation rf of round_fract "
+              "that agrees with the exact comparison below K digits (C10_entry_points, C10_with_precision_full) - and the f32 pre-filter of the "
+              "code, with Flocq's binary32 arithmetic and any sound log2 bounds, IS such an implementation for K = 2^24 (C03's theorem cited: "
+              "C10_f32_filter_admissible, C10_round_fract_flocq32, C10_to_int_f32), so the filter is no longer 'compared only'; "
+              "(2) the six bodies of rational/src/round.rs, Round::round_fract / round_ratio with the conditions of their assertions, "
+              "Repr::smaller_than_one and the rounds-to-zero test of FBig::round are REGENERATED from the Rust sources on every run "
+              "(coq/gen/RatioSmall.v, RoundPrimGen.v) and proved equal to the models / the specification; (3) compositions: with_rounding + "
+              "with_precision and with_base_and_precision to the same base are ONE rounding (new mode resp. any old precision); "
+              "with_precision twice is two single roundings; for the four directed modes x.with_precision(np1).with_precision(np2), np2 <= np1, "
+              "is the very float x.with_precision(np2) returns (same significand and exponent through the carry of the first rounding and the "
+              "normalisation in between: C10_with_precision_twice_directed_eq; at integer level for any two positions: "
+              "C10_directed_rounding_twice), NOT for the nearest modes (witnesses); (4) the primitives on arbitrary input: "
+              "inside the precondition = specification, outside = assertion panic, precision 0 admits only a zero fraction, zero low part = NoOp, "
+              "round_ratio's assertion is weaker than its documentation (|num| = |den| passes: right for the nearest modes, wrong for the "
+              "directed ones - refuted by witness; documented precondition |num/den| < 1); a release build of round_fract answers outside the "
+              "precondition (witness); (5) to_int: e >= 0 returns s * B^e (>= B^e: the documented allocation is the size of the result), e < 0 "
+              "never exceeds |s|; with one zero digit after the point the six roundings depend on the sign only (C10_int_spec_tiny: the "
+              "oracle's specification where B^(-e) cannot be formed). Every implementation answer is decided against the extracted specification.")
+LEVEL_NOTE = ("Trusted: Coq kernel, translators (tools/translate.py: round_low_part bodies; tools/translate_c10_r3.py: rational round.rs bodies, "
+              "round_fract / round_ratio bodies and assertions, smaller_than_one, FBig::round threshold - status in the evidence), extraction + FastZ.v, "
+              "zarith, harness. IBig arithmetic below the float/rational layer is Z arithmetic (C01/C02/C09) and isize exponent arithmetic is Z "
+              "arithmetic (one overflow found at isize::MIN and repaired, F03); digits_ub enters only through the contract 'never under-estimates' "
+              "(C12 log2_bounds). The f32 pre-filter inside round_fract is now covered by theorem for fewer than 2^24 fraction digits (C03's "
+              "round_fract_flocq32 cited; its hypotheses are the soundness of UBig/Word::log2_bounds = C12); with 2^24 or more digits after the "
+              "radix point it is only compared (corpus: 2^24+1 digits in base 2 and 10). Still only compared: the precision attached to results "
+              "beyond legality (proved legal, value of the usize not pinned), behaviour at |num| = |den| of the "
+              "directed modes (as-is model only: outside the documented precondition). Debug builds: round_fract's assertion raises the base to the "
+              "digit count, so FBig::to_int of exponents below about -10^7 is not run (release builds decide by the f32 filter); observation, not a "
+              "finding. Three defects were repaired in /repo (findings/C10.json F01 = DESIGN 5.1 #20, F02, F03 = isize::MIN negation); F01/F02 are "
+              "refuted in Coq on the pinned model.")
+TECHNIQUE = ("Coq proof (as-is models from the finiteness assertion on = spec_round; f32 filter by C03's Flocq theorem; rounding tables, rational "
+             "bodies, primitive bodies and assertions regenerated from source) + extracted-spec correspondence run")
 RULE = ("cases = FBig op {trunc,floor,ceil,round,fract,split,to_int,repr_to_int,with_precision} x base {2,3,8,10,16,36} x six modes x "
         "precision {0 (unlimited),1,2,3,4,5,7,10,17,40} x significand digits {1,2,p-1,p} x position of the radix point "
         "{integer, inside the digits at every offset, exactly at the top digit, 1,2,3,5,50,700 leading zeros} x digit patterns "
-        "{exact half, half +-1 unit, all B-1 (carry), 1, 10..0, even/odd integer part, random} x sign; rationals "
-        "{RBig, Relaxed} x {integers, ties n/2, |x|<1, planted common factors, multi-word}; the two primitives exhaustively for "
-        "bases 2,3,10 (all fractions of up to 4/3/2 digits, integers -2..2, all modes; all ratios with |den| <= 8, both signs of "
-        "den) and randomly for large operands. non-trivial = the value has a fractional part (a rounding decision was made); "
-        "counted by the oracle over distinct case texts.")
+        "{exact half, half +-1 unit, all B-1 (carry), 1, 10..0, even/odd integer part, random} x sign; infinities at every entry point; "
+        "exponents 5000..65537 (10^6 thorough) both ways for to_int, radix point 4001/6000 digits inside a long significand; "
+        "exponents -10^7, -2^40, -(2^63-1), isize::MIN for every entry point that does not reach round_fract's debug assertion; "
+        "with_precision twice (second cut landing on a tie / carry of the first), with_rounding + with_precision (6 x 6 modes), "
+        "with_base_and_precision to the same base; rationals {RBig, Relaxed} x {integers, ties n/2, |x|<1, planted common factors, "
+        "multi-word}; the two primitives exhaustively for bases 2,3,10 (all fractions of up to 4/3/2 digits, integers -2..2, all modes; "
+        "all ratios with |den| <= 8, both signs of den), randomly for large operands, and on arbitrary input (fraction = B^k, B^k +- 1, "
+        "2 B^k, precision 0; den = 0, |num| = |den|, |num| > |den|). non-trivial = the value has a fractional part (a rounding decision "
+        "was made); counted by the oracle over distinct case texts.")
 EXPLANATION = ("Each answer is compared with the Coq specification: int_spec (spec_round of s*B^e under Zero/Down/Up/HalfAway or the "
-               "type's mode), fract_sig_spec (x - trunc x), to_int_spec / with_precision_spec (value and the flag relative to the "
-               "truncated value), spec_round for rationals and for round_fract/round_ratio. Result precisions must keep the value "
-               "legal (digits <= precision or unlimited). Model fidelity is measured against the as-is models under both admissible "
-               "digits_ub instances (exact, exact+1).")
+               "type's mode; int_tiny where the power cannot be formed), fract_sig_spec (x - trunc x), to_int_spec / with_precision_spec (value "
+               "and the flag relative to the truncated value), spec_round for rationals and for round_fract/round_ratio; infinities must give the "
+               "documented panic; outside the primitives' preconditions the assertion must fire; a directed-mode with_precision chain must equal "
+               "the single rounding. Result precisions must keep the value legal (digits <= precision or unlimited). Model fidelity is measured "
+               "against the as-is entry points (*_full, under both admissible digits_ub instances) and, for the rationals and the primitives on "
+               "arbitrary input, against the bodies regenerated from the Rust sources.")
 TRUSTED_BASE = [
-    "Coq 8.16.1 kernel",
-    "tools/translate.py renders the six round_low_part bodies of float/src/round.rs faithfully",
+    "Coq 8.16.1 kernel; Flocq (binary32 rounding) through C03's theorem round_fract_flocq32",
+    "tools/translate.py renders the six round_low_part bodies of float/src/round.rs faithfully; tools/translate_c10_r3.py renders the bodies of rational/src/round.rs impl Repr, Round::round_fract / round_ratio and their assertion conditions, Repr::smaller_than_one and FBig::round's zero test (IBig / and % as Z.quot / Z.rem, a closure called once as its block, the two f32 tests as abstract predicates) - status in the evidence",
     "extraction: ExtrOcamlBasic + ExtrOcamlZBigInt + coq/extract/FastZ.v directives; zarith 1.12; oracle/driver_c10.ml",
     "harness/src/bin/c10.rs and hlib (values moved through raw words, Repr::new, Context::new, FBig::from_repr, RBig/Relaxed::from_parts)",
-    "IBig arithmetic below the float and rational layers behaves as Z (C01, C02, C09); Repr::digits_ub never under-estimates (C12)",
+    "IBig arithmetic below the float and rational layers behaves as Z (C01, C02, C09); Repr::digits_ub never under-estimates and UBig/Word::log2_bounds are sound (C12)",
 ]
 ASSUMPTIONS = [
-    "floats are finite and legal: digits <= context precision, or the precision is 0 (unlimited)",
-    "primitives are called inside their documented precondition: |fract| < B^digits, |num| < |den|, den != 0",
-    "exponents of generated cases stay within +-3000 (memory of the exact integer value)",
+    "floats are legal: digits <= context precision, or the precision is 0 (unlimited); infinities are covered as the documented panic class",
+    "primitives inside their documented precondition (|fract| < B^digits, |num| < |den|, den != 0) meet the specification; outside it only the assertion / the as-is model is checked",
+    "fewer than 2^24 digits after the radix point for the theorem about the f32 pre-filter (beyond: compared on corpus cases only)",
+    "FBig::to_int is run for exponents within about +-10^6 (memory of the exact integer; debug assertion of round_fract); the other entry points down to isize::MIN",
 ]
 
 
